@@ -40,13 +40,21 @@ def registry : Registry := mkRegistry stdTable Gen.stdFunctionNames
 def panicAns (m : String) : String :=
   if m.startsWith "unmodelled:" then "unmodelled " ++ (m.drop 11).toString else "panic"
 
+def unmodelledTag (es : List CErr) : Option String :=
+  es.findSome? fun e => match e.kind with
+    | .func t => if t.startsWith "unmodelled:" then some (t.drop 11).toString else none
+    | _ => none
+
 def evalWith (reg : Registry) (opt : Bool) (t : List Char) (ctx : Ctx) : String :=
   match compile reg opt t with
   | .error m => panicAns m
   | .ok (stages, errs) =>
-    match (buildKey stages).run ctx with
-    | .error m => panicAns m
-    | .ok v => s!"ok errs={errsStr errs} val={Hex.enc v}"
+    match unmodelledTag errs with
+    | some n => "unmodelled " ++ n
+    | none =>
+      match (buildKey stages).run ctx with
+      | .error m => panicAns m
+      | .ok v => s!"ok errs={errsStr errs} val={Hex.enc v}"
 
 def handle : List String → Option String
   | ["expr", o, t, el, ks] =>
